@@ -53,6 +53,21 @@ def normalize_path_segments(l):
     return _path.normalize_path_segments(list(l))
 
 
+QNAMES = ["QUOTER", "REQUOTER", "PATH_QUOTER", "PATH_REQUOTER", "QUERY_QUOTER", "QUERY_REQUOTER",
+          "QUERY_PART_QUOTER", "FRAGMENT_QUOTER", "FRAGMENT_REQUOTER"]
+UNAMES = ["UNQUOTER", "PATH_UNQUOTER", "PATH_SAFE_UNQUOTER", "QS_UNQUOTER"]
+
+
+@fn
+def quote(i, s):
+    return getattr(_quoters, QNAMES[i])(s)
+
+
+@fn
+def unquote(i, s):
+    return getattr(_quoters, UNAMES[i])(s)
+
+
 def load_extra():
     # further entry points live in impl_funcs.py (kept separate so the worker core
     # stays small)
